@@ -340,7 +340,7 @@ def matrix_to_events(matrix,
         if continuation:
             last_event = events.get(track, None)
             if last_event is not None:
-                last_event[-1]['duration'] += duration
+                last_event[-1]['duration'] += second_duration
             else:
                 event = {
                     'event_name': 'note_on',
